@@ -178,7 +178,11 @@ def _getter(func, args):
     self = args[0]
     if pname == "data":
         return _alias(self)
-    if pname in ("shape", "dtype", "device", "requires_grad", "is_cuda", "layout", "ndim", "is_leaf",
+    if pname == "shape":
+        return torch.Size(self._arr.shape)          # the payload is the truth (in-place shape changes update it)
+    if pname == "ndim":
+        return self._arr.ndim
+    if pname in ("dtype", "device", "requires_grad", "is_cuda", "layout", "ndim", "is_leaf",
                  "grad_fn", "is_sparse", "is_quantized", "is_meta", "names", "is_mkldnn", "is_xpu",
                  "is_nested", "is_cpu", "is_mps", "itemsize", "nbytes", "is_ipu", "is_xla", "is_maia",
                  "is_mtia", "is_vulkan", "output_nr", "_version"):
@@ -489,9 +493,10 @@ def _unsqueeze(self, dim):
 
 @H("unsqueeze_")
 def _unsqueeze_(self, dim):
-    r = _unsqueeze(self, dim)
-    self._stale = True
-    return r
+    # in-place shape change: the same python object gets the new shape (every shape query reads the payload)
+    d = dim if dim >= 0 else dim + self._arr.ndim + 1
+    self._arr = np.expand_dims(self._arr, d)
+    return self
 
 
 @H("squeeze")
@@ -506,10 +511,13 @@ def _squeeze(self, dim=None):
 
 @H("squeeze_")
 def _squeeze_(self, dim=None):
-    r = _squeeze(self, dim)
-    if r._arr.shape != self._arr.shape:
-        self._stale = True
-    return r
+    if dim is None:
+        self._arr = self._arr.squeeze()
+    else:
+        d = dim % max(self._arr.ndim, 1)
+        if self._arr.ndim and self._arr.shape[d] == 1:
+            self._arr = self._arr.squeeze(d)
+    return self
 
 
 @H("t")
